@@ -92,6 +92,11 @@ Section WithDigest.
     apply IH. unfold exist_step. simpl. now apply inv_check.
   Qed.
 
+  Lemma inv_check_all os : forall w, Inv w -> Inv (check_all H w os).
+  Proof.
+    induction os as [|o' os IH]; intros w I; simpl; auto. apply IH. now apply inv_check.
+  Qed.
+
   (* steps that leave the objects alone keep trusted_ok *)
   Lemma trusted_same_objs w w' o : w_objs w' = w_objs w -> w_cls w' = w_cls w -> w_alg w' = w_alg w ->
     trusted_ok w o -> trusted_ok w' o.
@@ -99,11 +104,12 @@ Section WithDigest.
 
   Lemma step_inv w p : Inv w -> tick_ok w p -> Inv (fst (step H w p)).
   Proof.
-    intros I Tk. destruct p as [v items|o'|os|o'|o' b m t|o'|o'|o' alg v|]; simpl in *.
+    intros I Tk. destruct p as [v items|o'|os|o'|d ents|o' b m t|o'|o'|o' alg v|]; simpl in *.
     - now apply add_inv.
     - now apply inv_check.
     - unfold oids_exist. destruct (w_cls w); simpl; auto. now apply inv_exist_fold.
     - unfold checkout. destruct (lookup o' (w_objs (snd (check w o')))); simpl; now apply inv_check.
+    - apply (inv_check_all (d :: map snd ents)). exact I.
     - (* OSet *)
       destruct I as (Hon & Tr & FM). destruct Tk as [Tk1 Tk2]. split; [|split; [|exact FM]].
       + intros o ob L. simpl in L. destruct (leqb_dec o o') as [->|N].
